@@ -73,6 +73,24 @@ def table():
     t.append(("copy:struct_view_init", PRE + fn("s: S", ["var c = s;"]), {533}))
     t.append(("copy:struct_assign", PRE + fn("", ["var a = In { n: 1, k: [1, 2] };", "var b = In { n: 2, k: [3, 4] };", "a = b;"]), {533}))
     t.append(("copy:word_assign", PRE + fn("", ["var a = Wd { p: 1, q: 2 };", "var b = Wd { p: 3, q: 4 };", "a = b;"]), "accept"))
+    # the same copies when another call with arguments occurs earlier in the statement
+    pick = "fn pick(i: usize) -> usize\n{\n\treturn: i\n}\n"
+    t.append(("copy:array_assign_after_call", PRE + pick + fn("", ["var m: [2][2]i32 = [[1, 2], [3, 4]];", "var row: [2]i32 = [5, 6];",
+                                                                    "m[pick(1)] = row;"]), {531}))
+    t.append(("copy:struct_in_literal_after_call", PRE + pick + "struct Tagged\n{\n\ttag: usize,\n\tinner: In,\n}\n" +
+              fn("", ["var s = In { n: 1, k: [1, 2] };", "var x = Tagged { tag: pick(1), inner: s };"]), {533}))
+    t.append(("copy:array_in_literal", PRE + fn("", ["var row: [2]i32 = [5, 6];", "var m: [2][2]i32 = [row, [1, 2]];"]), {531}))
+    # addresses of immutable things (would hand out mutable access)
+    fill = "fn fill(x: &[]i32, v: i32)\n{\n\tx[0] = v;\n}\nfn poke(x: &i32)\n{\n\tx = 1;\n}\n"
+    t.append(("addr:array_member_of_struct_view", PRE + fill + fn("s: S", ["fill(&s.arr, 9);"]), {530}))
+    t.append(("addr:member_of_struct_view", PRE + fill + fn("s: S", ["poke(&s.m);"]), {530}))
+    t.append(("addr:constant_array", PRE + fill + fn("", ["fill(&KA, 9);"]), {530}))
+    t.append(("addr:constant", PRE + fill + fn("", ["poke(&K);"]), {530}))
+    t.append(("addr:value_param", PRE + fill + fn("x: i32", ["poke(&x);"]), {530}))
+    t.append(("addr:array_view_param", PRE + fill + fn("x: []i32", ["fill(&x, 9);"]), {530, 512, 513}))
+    t.append(("addr:local_array", PRE + fill + fn("", ["var a: [2]i32 = [1, 2];", "fill(&a, 9);"]), "accept"))
+    t.append(("addr:member_of_local_struct", PRE + fill + fn("", ["var s = In { n: 1, k: [1, 2] };", "poke(&s.n);", "fill(&s.k, 3);"]), "accept"))
+    t.append(("addr:through_pointer_param", PRE + fill + fn("s: &S", ["poke(&s.m);", "fill(&s.arr, 3);"]), "accept"))
     # pointer parameter needs explicit &
     for ty, decl, arg in [("&i32", "var a: i32 = 1;", "a"), ("&[]i32", "var a: [2]i32 = [1, 2];", "a"),
                           ("&S", None, None), ("&Wd", "var a = Wd { p: 1, q: 2 };", "a"),
@@ -146,6 +164,24 @@ def run_case(case):
                         "detail": r.get("errors"), "replay": replay, "cov": cov}
         return {"verdict": HELD, "cov": cov, "nt": "row:" + name,
                 "sample": {"row": name, "observed": replay["observed"]} if name in ("write:array_view_elem", "write:pointer") else None}
+    if kind == "mon":
+        # monitor 3: mutability / copy rules asserted on the resolved tree of every accepted input
+        _, tag, files = case
+        k, r = common.call({"op": "alpha_compile", "files": [{"path": p, "src": s} for p, s in files], "ir": False,
+                            "module_ir": False, "typemon": True}, build="chk", timeout=60)
+        if k != "resp" or r["status"] != "ok":
+            return {"verdict": None, "cov": {"monitored_not_accepted": 1}}
+        checked = r["typemon_stats"]["checked"]
+        cov = {"monitored:" + tag: 1}
+        for rule in ("whole_copy", "write_target", "address_of"):
+            cov["tree_assertions:" + rule] = checked.get(rule, 0)
+        reports = [x for x in r["typemon"] if x["rule"] in ("whole_copy", "write_target", "address_of")]
+        if reports:
+            rep = reports[0]
+            return {"verdict": VIOLATED, "sig": "accepted program breaks mutability rule %s: %s" % (rep["rule"], rep["detail"][:90]),
+                    "detail": reports[:3], "replay": {"files": files, "tag": tag}, "cov": cov}
+        n = sum(cov["tree_assertions:" + rule] for rule in ("whole_copy", "write_target", "address_of"))
+        return {"verdict": HELD, "cov": cov, "nt": "mon:%s:%d" % (tag, min(n, 60))}
     # non-interference
     _, seed, i = case
     prog, _cov, prng = c01.make_program(seed + 4242, i, {"call_observe": True, "max_funcs": 5, "max_stmts": 8,
@@ -234,6 +270,21 @@ def main(tier, seed, replay=None):
     run = common.Run(PROP, tier, seed)
     cases = [("table", n, s, w) for n, s, w in table()]
     cases += [("ni", seed, i) for i in range(800 if tier == "quick" else 20000)]
+    from . import gen_mutate
+    rng = common.rng_for(seed, PROP, "mon")
+    corpus = gen_mutate.corpus()
+    for p, t in corpus:
+        cases.append(("mon", "corpus", [(p, t)]))
+    for fs in gen_mutate.corpus_import_sets():
+        cases.append(("mon", "modules", fs))
+    for i in range(800 if tier == "quick" else 40000):
+        p, t = rng.choice(corpus)
+        op, t2 = gen_mutate.mutate(rng, t, op=rng.choice(["amp", "amp", "tok_swap", "rename_use", "tok_replace", "tok_dup", "tok_delete",
+                                                           "tok_type", "paren_wrap", "insert_tok"]))
+        cases.append(("mon", "mutant", [(p, t2)]))
+    for i in range(150 if tier == "quick" else 3000):
+        prog, _c, prng = c01.make_program(seed + 88, i)
+        cases.append(("mon", "generated", [("gen.pn", gen_prog.to_source(prog))]))
     for r in common.run_sharded(run_case, cases):
         if r.get("verdict") is None and "harness_error" not in r:
             run.merge_counters(r.get("cov"))
